@@ -226,6 +226,23 @@ def check(ob, ctx, timeout_ms=10000, want_model=True, use_cvc5=True, wall_ms=Non
     if r == z3.sat and want_model:
         m = s.model()
         res["model"] = model_dict(m)
+        extract = getattr(ctx, "extract", None)
+        if extract is not None:
+            # a concrete reproducer from the counter-model (replayed on the real code by the report); prefer a short list
+            try:
+                n_t = z3.Int(getattr(ctx, "extract_len", "c.len"))
+                big = m.eval(n_t, model_completion=True)
+                if z3.is_int_value(big) and big.as_long() > 40:
+                    s.push()
+                    s.add(n_t <= 40)
+                    if s.check() == z3.sat:
+                        m = s.model()
+                    s.pop()
+                c = extract(m, ob)
+                if c is not None:
+                    res["concrete"] = c
+            except Exception as e:  # never a verdict
+                res["concrete_error"] = f"{type(e).__name__}: {e}"
     if r == z3.unknown:
         res["reason"] = s.reason_unknown()
         if use_cvc5:
@@ -312,6 +329,8 @@ def solve_all(ctx, obligations, timeout_ms, procs=None):
              "props": ob.props, "status": r["status"], "backend": r.get("backend"), "time": round(r["time"], 4)}
         if "model" in r:
             d["model"] = r["model"]
+        if "concrete" in r:
+            d["concrete"] = r["concrete"]
         if "reason" in r:
             d["reason"] = r["reason"]
         return d
